@@ -136,7 +136,10 @@ function genSem(rng, params) {
   if (kind === 0) { // Exclude<A, B>: A a union, B one of its members / a widening / a literal subset / unrelated
     // (sometimes a tuple whose rest is `unknown` / `any`: the `any[]` shortcut of the materialisation must keep the prefix)
     const anyRest = () => [A("tuple"), Array.from({ length: 1 + rng.below(2) }, () => genLeaf(rng)), A(rng.pick(["unknown", "any"]))];
-    const ms = Array.from({ length: 2 + rng.below(3) }, () => (rng.chance(1, 8) ? anyRest() : rng.chance(1, 2) ? genLeaf(rng) : genSubTy(rng, 1 + rng.below(2), sc)));
+    // (sometimes the meet of a fixed-length tuple with a SHORTER list type that has a rest: inhabited, by the tuple's values)
+    const listMeet = () => { const t = genLeaf(rng), n = 2 + rng.below(2); const fixed = [A("tuple"), Array.from({ length: n }, () => t), A("none")];
+      const shorter = rng.chance(1, 2) ? [A("array"), t] : [A("tuple"), Array.from({ length: rng.below(n) }, () => t), t]; return rng.chance(1, 2) ? [A("inter"), shorter, fixed] : [A("inter"), fixed, shorter]; };
+    const ms = Array.from({ length: 2 + rng.below(3) }, () => (rng.chance(1, 8) ? anyRest() : rng.chance(1, 10) ? listMeet() : rng.chance(1, 2) ? genLeaf(rng) : genSubTy(rng, 1 + rng.below(2), sc)));
     // (sometimes the top type on the left: TypeScript answers `unknown`, and the negation that reaches the printer must not panic)
     const a = rng.chance(1, 10) ? A(rng.pick(["unknown", "any"])) : [A("union"), ...ms];
     const r = rng.below(5);
@@ -273,6 +276,25 @@ export function gen(rng, params, mode) {
     if (rng.chance(1, 2)) [x, y] = [y, x];
     const src = ds.map(tsOfDecl).join("\n") + `\nparse.buildParsers<{ R: (${tsOf(x)}) extends (${tsOf(y)}) ? "yes" : "no" }>();\n`;
     return [A("sub"), A(String(counter++)), ds, x, y, src];
+  }
+  if (rng.chance(1, 10)) {
+    // a tuple whose positions are small unions of literals against a union of tuples of the same length that split those
+    // positions differently (`[boolean, boolean]` against `[true, true] | [false, boolean]`): a value outside the right-hand
+    // side may leave the first member at one position and the second member only at a LATER one (the search must backtrack)
+    const doms = [[lit("b", A("true")), lit("b", A("false"))], [lit("s", "a"), lit("s", "b")], [lit("n", "1"), lit("n", "2")]];
+    const len = 2 + rng.below(2);
+    const ds0 = Array.from({ length: len }, () => rng.pick(doms));
+    const whole = (d) => (d === doms[0] ? A("boolean") : [A("union"), ...d]);
+    const withRest = rng.chance(1, 4);
+    const tup = (ps) => [A("tuple"), ps, withRest ? A("string") : A("none")];
+    const x = tup(ds0.map(whole));
+    const member = () => tup(ds0.map((d) => (rng.chance(1, 2) ? whole(d) : rng.pick(d))));
+    const k = 2 + rng.below(2);
+    // (half of the time the members are built to cover the left side exactly at the first position)
+    const ms = rng.chance(1, 2) ? ds0[0].map((v) => tup([v, ...ds0.slice(1).map((d) => (rng.chance(1, 2) ? whole(d) : rng.pick(d)))])) : Array.from({ length: k }, member);
+    const y = [A("union"), ...ms, ...(rng.chance(1, 4) ? [member()] : [])];
+    const src = decls.map(tsOfDecl).join("\n") + `\nparse.buildParsers<{ R: (${tsOf(x)}) extends (${tsOf(y)}) ? "yes" : "no" }>();\n`;
+    return [A("sub"), A(String(counter++)), decls, x, y, src];
   }
   if (rng.chance(1, 10)) {
     // named unions of literals that overlap each other or a literal written next to them: the union of the operands then
